@@ -53,13 +53,44 @@ func balancerKeepsOwnCopies(r *core.Run) {
 	}
 	if fn := r.Need("balancer-keeps-own-copies", fnBackupCopies); fn != nil {
 		f := fn.SSA
-		var inner *core.IndexLoop
-		for _, l := range core.IndexLoops(f) {
-			if call, ok := l.LenOf.(*ssa.Call); ok {
-				if o := core.CalleeObj(call); o != nil && core.QualName(o) == "internal/cluster/partitions.(*Partition).Owners" {
-					inner = l
-				}
+		isOwnersCall := func(v ssa.Value) bool {
+			call, ok := v.(*ssa.Call)
+			if !ok {
+				return false
 			}
+			o := core.CalleeObj(call)
+			return o != nil && core.QualName(o) == "internal/cluster/partitions.(*Partition).Owners"
+		}
+		var inner *core.IndexLoop
+		var loopFn *ssa.Function // where the owner loop lives: f, or a helper f hands part.Owners() to
+		var helperCall *ssa.Call
+		for _, l := range core.IndexLoops(f) {
+			if isOwnersCall(l.LenOf) {
+				inner, loopFn = l, f
+			}
+		}
+		if inner == nil {
+			core.Instrs(f, func(in ssa.Instruction) {
+				c, ok := in.(*ssa.Call)
+				if !ok || inner != nil {
+					return
+				}
+				h := p.ByObj[core.CalleeObj(c)]
+				if h == nil || h.SSA == nil || h.SSA == f || h.Pkg.PkgPath != f.Pkg.Pkg.Path() {
+					return
+				}
+				for _, l := range core.IndexLoops(h.SSA) {
+					par, isPar := l.LenOf.(*ssa.Parameter)
+					if !isPar {
+						continue
+					}
+					for ai, hp := range h.SSA.Params {
+						if hp == par && ai < len(c.Call.Args) && isOwnersCall(c.Call.Args[ai]) {
+							inner, loopFn, helperCall = l, h.SSA, c
+						}
+					}
+				}
+			})
 		}
 		if inner == nil {
 			r.Unknown("balancer-keeps-own-copies", fnBackupCopies+" owner loop", site(r, f.Pos()), "no counting loop over part.Owners() recognised")
@@ -74,14 +105,14 @@ func balancerKeepsOwnCopies(r *core.Run) {
 			}
 		}
 		if self == nil {
-			r.Bad("balancer-keeps-own-copies", fnBackupCopies+" self test", site(r, instrPos(inner.Phi)), "the loop over the backup owners never compares the owner with this member: a backup owner ships its fragment to the other owners and drops its own copy")
+			r.Bad("balancer-keeps-own-copies", fnBackupCopies+" self test", site(r, inner.Pos()), "the loop over the backup owners never compares the owner with this member: a backup owner ships its fragment to the other owners and drops its own copy")
 			return
 		}
 		// (1) evaluated for every candidate that can be appended or skipped: the test dominates
 		// every back edge of the owner loop
 		ok := true
-		for _, pb := range inner.Header.Preds {
-			if inner.Header.Dominates(pb) && !self.Block().Dominates(pb) {
+		for _, pb := range inner.Latches() {
+			if !self.Block().Dominates(pb) {
 				ok = false
 			}
 		}
@@ -89,12 +120,6 @@ func balancerKeepsOwnCopies(r *core.Run) {
 			"the 'already belongs to me' test dominates every back edge of the owner loop",
 			"an owner can be skipped before the 'already belongs to me' test is reached: when that owner is this member (e.g. promoted to primary while still listed as backup owner) the member ships its replica away and drops its own copy, silently reducing the number of copies")
 		// (2) on the true edge scanPartition is unreachable without starting the next partition
-		var outer *ssa.BasicBlock
-		for _, l := range core.IndexLoops(f) {
-			if l != inner && l.Region()[inner.Header] {
-				outer = l.Header
-			}
-		}
 		ifb := self.Block()
 		bad := true
 		if ifi, isIf := ifb.Instrs[len(ifb.Instrs)-1].(*ssa.If); isIf {
@@ -104,8 +129,51 @@ func balancerKeepsOwnCopies(r *core.Run) {
 				if neg {
 					idx = 1
 				}
-				// leaving through the outer loop's post/header is fine
-				bad = reachesInstrAvoiding(ifb.Succs[idx], callTo(fnScanPartition), outerLatches(outer))
+				if loopFn == f {
+					var outer *ssa.BasicBlock
+					for _, l := range core.IndexLoops(f) {
+						if l != inner && l.Header != nil && inner.Header != nil && l.Region()[inner.Header] {
+							outer = l.Header
+						}
+					}
+					// leaving through the outer loop's post/header is fine
+					bad = reachesInstrAvoiding(ifb.Succs[idx], callTo(fnScanPartition), outerLatches(outer))
+				} else {
+					// the helper reports "mine" through a boolean result: constant true on every
+					// return reachable from the self edge; the caller reaches scanPartition only on
+					// the false edge of that result
+					bad = reachesInstrAvoiding(ifb.Succs[idx], callTo(fnScanPartition), nil)
+					flag := -1
+					rets := core.ReturnsFrom(ifb.Succs[idx], ifb)
+					if len(rets) > 0 {
+						for k := range rets[0].Results {
+							all := true
+							for _, ret := range rets {
+								c, isK := core.ResultValue(ret, k).(*ssa.Const)
+								if !isK || c.Value == nil || c.Value.String() != "true" {
+									all = false
+								}
+							}
+							if all {
+								flag = k
+							}
+						}
+					}
+					if flag < 0 {
+						bad = true
+					}
+					for _, sc := range findInstrs(f, false, callTo(fnScanPartition)) {
+						guarded := false
+						for _, cd := range core.Conditions(sc.Block()) {
+							if ex, isEx := cd.Val.(*ssa.Extract); isEx && !cd.Truth && ex.Tuple == ssa.Value(helperCall) && ex.Index == flag {
+								guarded = true
+							}
+						}
+						if !guarded {
+							bad = true
+						}
+					}
+				}
 			}
 		}
 		r.Check(!bad, "balancer-keeps-own-copies", fnBackupCopies+" own partition is kept", site(r, instrPos(self)),
